@@ -15,6 +15,9 @@ fn main() {
     }
     tmon::eng::install_panic_hook();
     let cmd = args[1].to_lowercase();
+    if cmd == "sani" {
+        std::process::exit(tmon::sani::run(&args[2..]));
+    }
     if cmd == "replay" {
         if args.len() < 3 {
             usage();
@@ -110,6 +113,7 @@ fn main() {
         "c11" => tmon::c11::run(&ctx),
         "c12" => tmon::c12::run(&ctx),
         "c12-digest" => tmon::c12::digest(&ctx),
+        "c12-threads" => tmon::c12::threads_only(&ctx),
         "c13" => tmon::c13::run(&ctx),
         "c14" => tmon::c14::run(&ctx),
         "c15" => tmon::c15::run(&ctx),
